@@ -189,7 +189,7 @@ func c19(w *core.World, r *core.Report) {
 				}
 			}
 		}
-		for _, c := range core.Calls(f) {
+		for _, c := range core.OwnCalls(f) {
 			if k, _, _ := core.LockOp(c); k == "lock" || k == "rlock" {
 				nLocks++
 			}
@@ -198,7 +198,7 @@ func c19(w *core.World, r *core.Report) {
 			r.Viol("LOCK-RELEASE", core.Site(f, "lock %s", lk.Class), w.InstrPos(lk.Lock), fmt.Sprintf("a path reaches a function exit with the lock still held (blocks %v)", lk.Trace))
 		}
 		// goroutines started here
-		for _, c := range core.Calls(f) {
+		for _, c := range core.OwnCalls(f) {
 			g, isGo := c.(*ssa.Go)
 			if !isGo {
 				continue
@@ -208,7 +208,7 @@ func c19(w *core.World, r *core.Report) {
 				continue
 			}
 			// does f wait on a WaitGroup?
-			waits := core.CallsTo(f, "sync.WaitGroup.Wait")
+			waits := core.OwnCallsTo(f, "sync.WaitGroup.Wait")
 			if len(waits) == 0 {
 				continue
 			}
@@ -230,7 +230,7 @@ func c19(w *core.World, r *core.Report) {
 			}
 			r.Check(doneDeferred, "WG-PAIR", site+" defers Done", w.InstrPos(g), "the goroutine must defer wg.Done() on every exit, else wg.Wait() never returns")
 			added := false
-			for _, a := range core.CallsTo(f, "sync.WaitGroup.Add") {
+			for _, a := range core.OwnCallsTo(f, "sync.WaitGroup.Add") {
 				if core.InstrBefore(a, g) {
 					added = true
 				}
